@@ -67,6 +67,10 @@ TEXT = {
     "C16": (E1[0], "For every type implementing SpaceUsage and every grid point, space_usage_byte() is compared with the bytes actually "
             "kept alive (counting allocator + size_of_val); the scaled variants are compared exactly.", "§4 C16",
             "bounded-exhaustive grid exploration with an allocation monitor on the real code"),
+    "C17": (E1[0], "The contracts of the word-level primitives are checked on exhaustively enumerated factor spaces (all low-popcount "
+            "words, all byte-alphabet words, the whole lookup table, all shifts of all element types with tagged keys), in both "
+            "build profiles.", "§4 C17",
+            "exhaustive enumeration of decomposed input factors on the real code vs. naive reference"),
 }
 
 NOTE = {
@@ -78,6 +82,7 @@ NOTE = {
     "C14": "Trusted: counting allocator; constants C=2048 bytes/level, C0=512, +1% calibrated with head-room on the current tree. n large enough for the factor to dominate: >= 2^16.",
     "C15": "Trusted: counting allocator; H0 computed by the harness; table allowance 10*(m+1)+40*distinct+4096 bytes.",
     "C16": "Trusted: counting allocator. Tolerance 2% + 256 bytes per component + 512 (the property's 'few percent plus a constant per component').",
+    "C17": "Trusted: naive bit-scan / stable-sort references. Not all 2^64 (2^128) words are enumerated; see evidence.coverage.bounds for what is exhaustive.",
     "C09": "Trusted: the explorer's digest; rank itself is validated by C01/C02. Prefetch intrinsics have no architectural effect, so only panics, faults and answer changes are observable. Known finding KF2 does not arise below 17 levels.",
     "C10": "Trusted: the reference model decides which arguments satisfy the precondition. Known finding KF1 (BitVectorMut::get_bits None at index+len==len while get_bits_unchecked answers).",
     "C11": "Trusted: bincode; PartialEq of the types (also exercised by C19).",
@@ -133,6 +138,8 @@ def main():
              "kind_free_text": "state zoo x method x argument sweep under panic / signal / UB-check / ASan monitors"},
             {"name": "mc_space", "path": "/verif/mc/src/bin/mc_space.rs", "serves_properties": ["C14", "C15", "C16"],
              "kind_free_text": "grid explorer with a counting global allocator"},
+            {"name": "mc_words", "path": "/verif/mc/src/bin/mc_words.rs", "serves_properties": ["C17"],
+             "kind_free_text": "exhaustive factor enumeration for the word-level primitives"},
             {"name": "mc_vectors", "path": "/verif/mc/src/bin/mc_vectors.rs", "serves_properties": ["C05", "C06", "C07"],
              "kind_free_text": "E1 bounded-exhaustive input-space explorer for RSQVector, RSNarrow/RSWide and DArray"},
         ],
